@@ -1017,3 +1017,24 @@ def datasetRead (sch : Schema) (cfg : Cfg) (fl : Flags) (toks : List Tok) (tail 
   readWith sch cfg { fl with excludeChars := false } freshSink toks tail ns existing
 
 end DendroModel.C13
+
+/-! ### the domain of the stream-level theorems, as an executable predicate (driver op `nosets`) -/
+namespace DendroModel.C13.Aux
+open DendroModel.C13
+
+/-- the block the stream loop is about to dispatch on -/
+def dispatchTok (c : Core) : Option String := ((seekBegin c.ts.nextU).clear.nextU).cur
+
+/-- the reader's block loop never dispatches on a SETS / ASSUMPTIONS / CODONS block (which the reader, with
+    `exclude_chars`, leaves to be scanned for the next BEGIN while the yielder skips it statement by statement) -/
+def noSetsBlocks {σ} (cfg : Cfg) (fl : Flags) (S : Sink σ) (c : Core) (acc : σ) : Bool :=
+  if c.ts.eof then true
+  else if isSetsKw (dispatchTok c) then false
+  else
+    match streamStepR cfg fl S c acc with
+    | .error _ => true
+    | .ok (c3, acc3) =>
+      if h : c3.ts.rest.length < c.ts.rest.length then noSetsBlocks cfg fl S c3 acc3 else true
+termination_by c.ts.rest.length
+
+end DendroModel.C13.Aux
